@@ -149,6 +149,13 @@ def c09_oracle(script, result):
                 d = raw[i].get("direct")
                 if must_fail is None and d is None:
                     return ("C09:harness", "no direct-merge record", i)
+                if must_fail is None:
+                    # the verdict the property dictates, from the fail plan and the classes to visit alone
+                    exp, _ = ts.expected_merge(shadow[dst], ts.norm_track_impl(d["src"]), op[3] or [], True, result["plan"], raw[i]["w0"])
+                    if exp != (0, 0):
+                        must_fail = ("the merge itself must fail: %s (every requested class present in either track is optimised once, in list "
+                                     "order; fail plan %r, invocation counters at the start %r)"
+                                     % ("attribute merge" if exp[0] == 2 else "optimisation of a requested class", result["plan"], raw[i]["w0"]))
                 if must_fail is None and d["r"][0] != 0:
                     must_fail = "Track::merge fails with %r" % (tuple(d["r"]),)
                 if must_fail is not None:
@@ -282,6 +289,29 @@ def gen_big_pairs(shard_counts, maps, prefix="b"):
     return out
 
 
+def gen_dest_only_faults(shard_counts):
+    """merges over explicit class lists naming classes that only the DESTINATION holds, with an optimize failure planned
+    at exactly that class; remove flag on/off; all three store merge entry points"""
+    out = []
+    k = 0
+    dspec = [(1, 3, None, None), (2, 5, 1, None)]         # destination: classes 1 and 2
+    sspec = [(1, 4, None, None)]                            # source: class 1 only
+    for n in shard_counts:
+        for (L, at) in (([2], 0), ([1, 2], 1), ([2, 1], 0), ([2, 1], 1), ([4, 2], 0)):
+            for mh in (True, False):
+                for variant in ("MO0", "MO1", "ME", "MN"):
+                    n_setup = len(dspec) + (len(sspec) if variant.startswith("MO") else len(sspec))
+                    plan = ((), (), (n_setup + at,))
+                    ops = [("BA", 1, dspec)]
+                    if variant.startswith("MO"):
+                        ops += [("BA", 2, sspec), ("MO", 1, 2, L, variant == "MO1", mh)]
+                    else:
+                        ops.append((variant, 1, 2, L, mh, sspec))
+                    out.append(Script("S", "df%d" % k, ops + [("ST",)], shards=n, plan=plan, meta={"family": "dest-only-class faults"}))
+                    k += 1
+    return out
+
+
 def rand_spec(rng, poison_p=0.06):
     cls = rng.randint(1, 3)
     r = rng.random()
@@ -403,7 +433,7 @@ def run(chk):
         return
     exhaustive = chk.tier == "thorough"
     if exhaustive:
-        small = gen_exhaustive((1, 2, 3)) + gen_big_pairs((2, 3, 4, 5, 6, 7, 8), (0, 1, 2))
+        small = gen_exhaustive((1, 2, 3)) + gen_big_pairs((2, 3, 4, 5, 6, 7, 8), (0, 1, 2)) + gen_dest_only_faults((1, 2, 3, 5))
         rnd = gen_random(chk.seed, 40, 400)
     else:
         allx = gen_exhaustive((1, 2, 3))
@@ -412,7 +442,7 @@ def run(chk):
         # all sequences of length 2, as length-3 scripts ending in shard_stats, are always run
         pairs2 = [Script("S", "p%d_%d" % (n, i), [ALPHABET[a], ALPHABET[b], ("ST",)], shards=n, meta={"family": "exhaustive-2"})
                   for n in (1, 2, 3) for i, (a, b) in enumerate(itertools.product(range(len(ALPHABET)), repeat=2))]
-        small = small + pairs2 + gen_big_pairs((3, 5, 6, 7), (0, 1)) + gen_big_pairs((8,), (2,), prefix="c")
+        small = small + pairs2 + gen_big_pairs((3, 5, 6, 7), (0, 1)) + gen_big_pairs((8,), (2,), prefix="c") + gen_dest_only_faults((1, 2, 3))
         rnd = gen_random(chk.seed, 8, 400)
     scripts = small + rnd
     pairs = ts.run_scripts(scripts, tag="c09")
